@@ -236,7 +236,7 @@ Proof.
     + destruct (H88 ltac:(lia)) as (nn & dd & r' & -> & Hnn & Hdd & _).
       inversion Hb as [|? ? Ha Hb1]; subst. inversion Hb1 as [|? ? Hb' Hb2]; subst.
       cbn [app byte_at nth_error bind]. unfold is_byte in *.
-      replace (dd >=? 31) with false by lia.
+      replace (dd >=? 64) with false by lia.
       rewrite Hadv. reflexivity.
     + cbn [skipn app]. rewrite read_str_app. cbn [bind]. rewrite Hadv. reflexivity.
 Qed.
